@@ -68,10 +68,51 @@ def strip_ansi(s):
     return re.sub(r"\x1b\[[0-9;]*m", "", s)
 
 
+def learn_chrome(binp, cwd):
+    """what the REPL writes that is not the transcript of the forms: the lines of a session without any input (banner first,
+    farewell last), and the decoration around an error message (learned from one failing form whose message is known from
+    the library interface).  The statement fixes neither, so they are observed, not assumed."""
+    def lines(data):
+        p = subprocess.run([binp], input=data, stdout=subprocess.PIPE, stderr=subprocess.PIPE, timeout=60, cwd=cwd)
+        o = strip_ansi(p.stdout.decode(errors="replace")).split("\n")
+        e = strip_ansi(p.stderr.decode(errors="replace")).split("\n")
+        return (o[:-1] if o and o[-1] == "" else o), (e[:-1] if e and e[-1] == "" else e)
+    idle, _ = lines(b"")
+    _, err = lines(b"(car (quote chrome-probe))\n")
+    return {"idle": idle, "errline": err[0] if err else ""}
+
+
+def strip_chrome(out, chrome):
+    idle = chrome["idle"]
+    k = 0
+    while k < len(idle) and k < len(out) and out[k] == idle[k]:
+        k += 1
+    out, rest = out[k:], idle[k:]
+    j = 0
+    while j < len(rest) and j < len(out) and out[len(out) - 1 - j] == rest[len(rest) - 1 - j]:
+        j += 1
+    return out[:len(out) - j] if j else out
+
+
+def undecorate(line, chrome):
+    pre, suf = chrome.get("pre", ""), chrome.get("suf", "")
+    if line.startswith(pre) and line.endswith(suf) and len(line) >= len(pre) + len(suf):
+        return line[len(pre):len(line) - len(suf)] if suf else line[len(pre):]
+    return line
+
+
 def run(ctx):
     tier = ctx.tier
     build_harness()
     binp = build_binary()
+    chrome = learn_chrome(binp, ctx.dir)
+    probe = run_jobs([{"id": 0, "kind": "session", "steps": [{"op": "new", "i": 0, "natives": False}, {"op": "eval", "i": 0, "text": "(car (quote chrome-probe))", "print": True}]}],
+                     ctx.dir, tag="chrome")[0]["results"][1]
+    msg = probe.get("msg", "")
+    at = chrome["errline"].find(msg) if msg else -1
+    if at < 0:
+        raise ToolError("the REPL's error line %r does not contain the message %r of the library interface" % (chrome["errline"], msg))
+    chrome["pre"], chrome["suf"] = chrome["errline"][:at], chrome["errline"][at + len(msg):]
     r = run_tlc("MCRepl.tla", "MCRepl.cfg", ctx.dir, workers=12, timeout=1200, xss="256m")
     require_clean(r, "MCRepl")
     ctx.add_tlc(r, "MCRepl (a form is submitted exactly with its last line, for every split inside lists)")
@@ -163,10 +204,11 @@ def run(ctx):
             out = strip_ansi(p.stdout.decode(errors="replace")).split("\n")
             if out and out[-1] == "":
                 out = out[:-1]
-            out = [x for k, x in enumerate(out) if not (k == 0 and x.startswith("Ruschm Version")) and x != "exited. have a nice day."]
+            out = strip_chrome(out, chrome)
             err = strip_ansi(p.stderr.decode(errors="replace")).split("\n")
             if err and err[-1] == "":
                 err = err[:-1]
+            err = [undecorate(x, chrome) for x in err]
             events.append(((i, variant, lines), {"ev": "session", "lines": [cps(x) for x in lines], "forms": [cps(t) for t in subs],
                                                   "expected": expected, "stdout": [cps(x) for x in out], "stderr": [cps(x) for x in err]}))
     bad = run_trace(ctx, events, "sessions")
@@ -181,7 +223,7 @@ def run(ctx):
     ctx.stage("sessions", programs=len(sessions), transcripts=len(events), rejected=len(bad))
     if events:
         ctx.sample({"session_lines": events[0][0][2][:10]})
-    ctx.assumptions += ["the banner and the farewell line are ignored; standard output and standard error are compared separately (their interleaving is not observable through pipes)",
+    ctx.assumptions += ["the banner and the farewell line (learned from a session without input) and the decoration around error messages (learned from one probe) are removed; standard output and standard error are compared separately (their interleaving is not observable through pipes)",
                         "forms are split only inside lists; displayed output is not used in sessions (values only)",
                         "where the pending text does not lex at a line break (unterminated string or |identifier|) nothing is demanded"]
     return ctx.finish(rule="completeness test: every string up to length 5 over the 10-character alphabet ( ) \" ; newline # \\ | a space against hook H1, judged through Reader depth; "
